@@ -468,6 +468,11 @@ func (fr *frame) appendBuiltin(v ssa.Value, c *ssa.CallCommon, bc string, st *st
 	// cells [base, base+oldLen): old contents of s (moved if reallocated); [base+oldLen, base+newLen): appended
 	e.assume(fmt.Sprintf("(forall ((zi Int)) (! (= (select %s zi) (ite (and (<= (+ %s %s) zi) (< zi (+ %s %s))) %s (ite (and (not %s) (<= %s zi) (< zi (+ %s %s))) (select %s (+ (s.base %s) (- zi %s))) (select %s zi)))) :pattern ((select %s zi))))",
 		nw, base, oldLen, base, newLen, srcAt, inPlace, base, base, oldLen, old, s, base, old, nw))
+	// the same facts again, triggered from the old memory and as ground terms (E-matching is one-directional)
+	e.assume(fmt.Sprintf("(forall ((zj Int)) (! (=> (and (<= (s.base %s) zj) (< zj (+ (s.base %s) %s))) (= (select %s (+ %s (- zj (s.base %s)))) (select %s zj))) :pattern ((select %s zj))))", s, s, oldLen, nw, base, s, old, old))
+	if !isStr {
+		e.assume(implies(app(">=", nn, "1"), eq(app("select", nw, app("+", base, oldLen)), app("select", old, app("s.base", x)))))
+	}
 	st.regs[r] = nw
 	fr.setVal(v, app("mk-slice", base, newLen, ite(inPlace, app("s.cap", s), newCap)))
 }
